@@ -15,10 +15,9 @@ Section SpecTab.
   Variable seed : list N.
 
   (* spec_round with the two hashes abstracted *)
-  Definition spec_round_with (pivot_hash : list N) (source_of_block : N -> list N)
+  Definition spec_round_with (pivot : N) (source_of_block : N -> list N)
              (index_count index current_round : N) : option N :=
     if 256 <=? current_round then None else
-    let pivot := bytes_to_uint (firstn 8 pivot_hash) mod index_count in
     let flip := (pivot + index_count - index) mod index_count in
     let position := N.max index flip in
     if 4294967296 <=? position / 256 then None else
@@ -27,31 +26,30 @@ Section SpecTab.
     let bit := (byte / 2 ^ (position mod 8)) mod 2 in
     Some (if bit =? 0 then index else flip).
 
-  Definition pivot_hash_spec (r : N) : list N := H (seed ++ uint_to_bytes 1 r).
+  Definition pivot_spec (index_count r : N) : N :=
+    bytes_to_uint (firstn 8 (H (seed ++ uint_to_bytes 1 r))) mod index_count.
   Definition source_hash_spec (r blk : N) : list N := H (seed ++ uint_to_bytes 1 r ++ uint_to_bytes 4 blk).
 
   Lemma spec_round_is_with n i r :
-    spec_round H seed n i r = spec_round_with (pivot_hash_spec r) (source_hash_spec r) n i r.
+    spec_round H seed n i r = spec_round_with (pivot_spec n r) (source_hash_spec r) n i r.
   Proof. reflexivity. Qed.
 
-  Lemma spec_round_with_ext ph s1 s2 n i r :
+  Lemma spec_round_with_ext p s1 s2 n i r :
     (forall blk, blk * 256 < n -> s1 blk = s2 blk) -> 0 < n -> i < n ->
-    spec_round_with ph s1 n i r = spec_round_with ph s2 n i r.
+    spec_round_with p s1 n i r = spec_round_with p s2 n i r.
   Proof.
     intros E Hn Hi. unfold spec_round_with.
     destruct (256 <=? r); [reflexivity|].
-    set (p := bytes_to_uint (firstn 8 ph) mod n).
     assert (Hf : (p + n - i) mod n < n) by (apply N.mod_lt; lia).
     set (f := (p + n - i) mod n) in *.
     assert (Hpos : N.max i f < n) by lia. set (pos := N.max i f) in *.
     destruct (4294967296 <=? pos / 256); [reflexivity|].
     rewrite E; [reflexivity|]. lia.
   Qed.
-  Lemma spec_round_with_lt ph s n i r j : 0 < n -> i < n -> spec_round_with ph s n i r = Some j -> j < n.
+  Lemma spec_round_with_lt p s n i r j : 0 < n -> i < n -> spec_round_with p s n i r = Some j -> j < n.
   Proof.
     intros Hn Hi. unfold spec_round_with.
     destruct (256 <=? r); [discriminate|].
-    set (p := bytes_to_uint (firstn 8 ph) mod n).
     assert (Hf : (p + n - i) mod n < n) by (apply N.mod_lt; lia).
     set (f := (p + n - i) mod n) in *.
     destruct (4294967296 <=? N.max i f / 256); [discriminate|].
@@ -59,14 +57,14 @@ Section SpecTab.
   Qed.
 
   (* tables: one entry per round *)
-  Definition round_table (nblk : nat) (r : N) : N * (list N * list (list N)) :=
-    (r, (pivot_hash_spec r, map (fun b => source_hash_spec r (N.of_nat b)) (seq 0 nblk))).
-  Definition spec_tables (rounds : N) (nblk : nat) : list (N * (list N * list (list N))) :=
-    map (fun r => round_table nblk (N.of_nat r)) (seq 0 (N.to_nat rounds)).
+  Definition round_table (index_count : N) (nblk : nat) (r : N) : N * (N * list (list N)) :=
+    (r, (pivot_spec index_count r, map (fun b => source_hash_spec r (N.of_nat b)) (seq 0 nblk))).
+  Definition spec_tables (rounds index_count : N) (nblk : nat) : list (N * (N * list (list N))) :=
+    map (fun r => round_table index_count nblk (N.of_nat r)) (seq 0 (N.to_nat rounds)).
   Definition lookup (tab : list (list N)) (blk : N) : list N :=
     match nth_error tab (N.to_nat blk) with Some s => s | None => [] end.
 
-  Definition shuffled_index_tab (tabs : list (N * (list N * list (list N)))) (index index_count : N) : option N :=
+  Definition shuffled_index_tab (tabs : list (N * (N * list (list N)))) (index index_count : N) : option N :=
     if index <? index_count then
       fold_left (fun acc t => match acc with
                               | Some i => spec_round_with (fst (snd t)) (lookup (snd (snd t))) index_count i (fst t)
@@ -82,7 +80,7 @@ Section SpecTab.
   Qed.
 
   Lemma shuffled_index_tab_eq rounds nblk i n : n <= 256 * N.of_nat nblk ->
-    shuffled_index_tab (spec_tables rounds nblk) i n = compute_shuffled_index H seed rounds i n.
+    shuffled_index_tab (spec_tables rounds n nblk) i n = compute_shuffled_index H seed rounds i n.
   Proof.
     intros Hblk. unfold shuffled_index_tab, compute_shuffled_index, spec_tables.
     destruct (N.ltb_spec i n) as [Hi|Hi]; [|reflexivity].
@@ -102,7 +100,7 @@ Section SpecTab.
   (* every position of a list of n elements, sharing the tables *)
   Definition spec_all (rounds : N) (n : nat) : list (option N) :=
     let nblk := S (n / 256) in
-    let tabs := spec_tables rounds nblk in
+    let tabs := spec_tables rounds (N.of_nat n) nblk in
     map (fun i => shuffled_index_tab tabs (N.of_nat i) (N.of_nat n)) (seq 0 n).
 
   Theorem spec_all_eq rounds n :
